@@ -156,8 +156,28 @@ def rdwr_design(name, rng):
     ('RD( s.x ) < U( W )', [('R1', 'W'), ('R2', 'W')]),          # inverts the implicit writer-before-reader pairs
   ][form]
   L.append(f's.add_constraints( {txt} )')
+  pre = ''
+  if rng.random() < 0.5:
+    # a second constraint on the SAME signal declared by another component (the child that owns the signal)
+    pre = '''
+class VChild( Component ):
+  def construct( s ):
+    s.in_ = InPort( 8 ); s.out = OutPort( 8 ); s.t = Wire( 8 )
+    @update
+    def CW():
+      s.out @= s.in_ + 2
+    @update
+    def CE():
+      s.t @= s.in_
+    s.add_constraints( U( CE ) < WR( s.out ) )
+'''
+    L += ['s.vc = VChild()', 'connect( s.vc.in_, s.i )', 's.e2 = Wire( 8 )', 's.o3 = OutPort( 8 )',
+          '@update', 'def E2():', '  s.e2 @= s.i', '@update', 'def R3():', '  s.o3 @= s.vc.out',
+          's.add_constraints( U( E2 ) < WR( s.vc.out ) )']
+    req = req + [('CE', 'CW'), ('E2', 'CW')]
+    txt = txt + ' + two components constrain WR(vc.out)'
   body = '\n'.join('    ' + l for l in L)
-  return sc.STRUCT_SRC + f'\nclass {name}( Component ):\n  def construct( s ):\n{body}\n', req, txt
+  return sc.STRUCT_SRC + pre + f'\nclass {name}( Component ):\n  def construct( s ):\n{body}\n', req, txt
 
 def graph_design(name, n, edges):
   L = [f's.t = [ Wire( 4 ) for _ in range({n}) ]', 's.i = InPort( 4 )']
@@ -325,7 +345,7 @@ def run(ctx):
     except Exception as e:
       ctx.violation(f'C02:index-design-crash:{type(e).__name__}', f'index design failed: {type(e).__name__}: {str(e)[:200]}', {'design_source': src, 'traceback': traceback.format_exc()[-1500:]})
   for j in range(16 if quick else 64):
-    src, req, txt = rdwr_design(f'VC{j}', random.Random(j))
+    src, req, txt = rdwr_design(f'VC{j}', random.Random(j * 7919 + ctx.seed % 1000))
     try:
       cls, _ = sc.load_source(ctx, src, f'VC{j}')
       check_orders(ctx, f'VC{j}', src, cls, variants, coq_cases, coq_meta, required=req)
@@ -392,6 +412,7 @@ class St( Component ):
     if kind == 1:   s.add_constraints( M( s.recv ) < U( up_st ) )
     elif kind == 2: s.add_constraints( U( up_st ) < M( s.recv ) )
     elif kind == 3: s.add_constraints( M( s.recv ) < M( s.aux ), M( s.aux ) < U( up_st ) )     # through a method nobody calls
+    elif kind == 4: s.add_constraints( U( up_st ) < M( s.aux ), M( s.aux ) < M( s.recv ) )     # the same, the other way round
   @non_blocking( lambda s: len( s.q ) < 2 )
   def recv( s, msg ): s.q.append( msg )
   @non_blocking( lambda s: True )
@@ -420,7 +441,7 @@ def cl_design(name, rng):
       L += [f's.q{i} = {Q}( {rng.randrange(1, 3)} )', f's.p{i} = Pull()', f'connect( {prev}, s.q{i}.enq )', f'connect( s.p{i}.get, s.q{i}.deq )']
       prev = f's.p{i}.send'
     else:
-      L += [f's.t{i} = St( {rng.randrange(0, 4)} )', f'connect( {prev}, s.t{i}.recv )']
+      L += [f's.t{i} = St( {rng.randrange(0, 5)} )', f'connect( {prev}, s.t{i}.recv )']
       prev = f's.t{i}.send'
   L.append(f'connect( {prev}, s.snk.recv )')
   body = '\n'.join('    ' + l for l in L)
